@@ -39,6 +39,14 @@ def rand_config(rng, lossless=None, profile=None, small=True, vary_metadata=Fals
     vp.update(frame_width=w, frame_height=h, clean_width=w, clean_height=h, left_offset=0, top_offset=0,
               color_diff_format_index=cdf, source_sampling=ss, top_field_first=rng.random() < 0.5,
               luma_offset=0, luma_excursion=(1 << dy) - 1, color_diff_offset=1 << (dc - 1), color_diff_excursion=(1 << dc) - 1)
+    if rng.random() < 0.2:
+        # one of the PRESET signal ranges as a whole (video-range presets have non-zero luma offsets): the encoder then
+        # codes a preset index instead of custom values
+        from vc2_data_tables import PRESET_SIGNAL_RANGES
+
+        sr = PRESET_SIGNAL_RANGES[rng.choice(sorted(PRESET_SIGNAL_RANGES))]
+        vp.update(luma_offset=sr.luma_offset, luma_excursion=sr.luma_excursion, color_diff_offset=sr.color_diff_offset,
+                  color_diff_excursion=sr.color_diff_excursion)
     if vary_metadata:
         # everything else the sequence header carries: frame rate, pixel aspect ratio, clean area, colour primaries /
         # matrix / transfer function (independently, so that partial matches with the colour-spec presets occur)
@@ -169,7 +177,7 @@ def describe(cf):
     return {"profile": int(cf["profile"]), "pcm": int(cf["picture_coding_mode"]), "lossless": bool(cf["lossless"]),
             "w": int(vp["frame_width"]), "h": int(vp["frame_height"]), "cdf": int(vp["color_diff_format_index"]),
             "ss": int(vp["source_sampling"]), "tff": bool(vp["top_field_first"]),
-            "luma_exc": int(vp["luma_excursion"]), "cd_exc": int(vp["color_diff_excursion"]), "cd_off": int(vp["color_diff_offset"]),
+            "luma_off": int(vp["luma_offset"]), "luma_exc": int(vp["luma_excursion"]), "cd_exc": int(vp["color_diff_excursion"]), "cd_off": int(vp["color_diff_offset"]),
             "wavelet": int(cf["wavelet_index"]), "wavelet_ho": int(cf["wavelet_index_ho"]), "depth": cf["dwt_depth"],
             "depth_ho": cf["dwt_depth_ho"], "sx": cf["slices_x"], "sy": cf["slices_y"], "frag": cf["fragment_slice_count"],
             "picture_bytes": cf["picture_bytes"], "qm": cf["quantization_matrix"],
@@ -184,7 +192,7 @@ def from_description(d):
     vp = copy.deepcopy(CF["video_parameters"])
     vp.update(frame_width=d["w"], frame_height=d["h"], clean_width=d["w"], clean_height=d["h"], left_offset=0, top_offset=0,
               color_diff_format_index=ColorDifferenceSamplingFormats(d["cdf"]), source_sampling=SourceSamplingModes(d["ss"]),
-              top_field_first=d["tff"], luma_offset=0, luma_excursion=d["luma_exc"], color_diff_offset=d["cd_off"],
+              top_field_first=d["tff"], luma_offset=d.get("luma_off", 0), luma_excursion=d["luma_exc"], color_diff_offset=d["cd_off"],
               color_diff_excursion=d["cd_exc"])
     for k, v in d.get("meta", {}).items():
         vp[k] = type(vp[k])(v)
